@@ -36,6 +36,10 @@ def jobs(tier):
                 for lens in lens_all:
                     js.append(("job_conform", dict(_name="abstract q=%s %s restored=%d lens=%s" % (qn, cls, restored, lens),
                                                    qn=qn, cls=cls, restored=restored, lens=lens)))
+                if qn == "11":     # custom seeds, including the empty seed
+                    for seeds in ((b"", b"N2", b""), (b"M2", b"", b"s")):
+                        js.append(("job_conform", dict(_name="abstract q=%s %s restored=%d custom seeds %r" % (qn, cls, restored, seeds),
+                                                       qn=qn, cls=cls, restored=restored, lens=(1, 1, 2), seeds=seeds)))
     js.append(("job_constants", dict(_name="published constants and vectors (ground)")))
     for g in ("toy11", "I1024", "Ed25519"):
         js.append(("job_matrix", dict(_name="session matrix on the plain package: %s (ground)" % g, gname=g)))
@@ -44,22 +48,25 @@ def jobs(tier):
     return js
 
 
-def reference_message(cls, params, pw, ent_bytes):
+def reference_message(cls, params, pw, ent_bytes, seeds=(b"M", b"N", b"symmetric")):
     g = params.group
     x = g.RS(z3.simplify(SymBytes.of(ent_bytes).value()))
     w = T(g.password_to_scalar(pw))
-    seed = {"A": b"M", "B": b"N", "S": b"symmetric"}[cls]
+    seed = {"A": seeds[0], "B": seeds[1], "S": seeds[2]}[cls]
     mu = z3.Int("dlog_%s_%s" % (g.tag, seed.hex()))
     return x, w, norm(x + w * mu)
 
 
-def job_conform(J, qn, cls, restored, lens):
+def job_conform(J, qn, cls, restored, lens, seeds=(b"M", b"N", b"symmetric")):
     q = orders()[qn]
     J.bounds.update(q=qn, cls=cls, restored=restored, lens=lens)
 
     def h(ctx):
         setup_hash_axioms(ctx)
-        params = abstract_params(q, rejects_identity=(qn == "L"))
+        if tuple(seeds) == (b"M", b"N", b"symmetric"):
+            params = abstract_params(q, rejects_identity=(qn == "L"))
+        else:
+            params = abstract_params(q, rejects_identity=(qn == "L"), M=seeds[0], N=seeds[1], S=seeds[2])
         g = params.group
         W = g.element_size_bytes
         pw, idA, idB = sym_inputs(lens)
@@ -82,13 +89,13 @@ def job_conform(J, qn, cls, restored, lens):
             J.claim(r, "start() does not raise (%s)" % type(r.value).__name__, False, cex=cex, oracle="conform")
             continue
         params, g = w["params"], w["params"].group
-        seeds = sorted({s for (gg, s, v) in r.ctx.table("seeds")})
-        J.claim(r, "_Params derives M, N, S from exactly the seeds b'M', b'N', b'symmetric'",
-                seeds == sorted([b"M", b"N", b"symmetric"]) or seeds == sorted([b"", b"M", b"N", b"symmetric"]), cex=cex, oracle="conform")
+        asked = sorted({s for (gg, s, v) in r.ctx.table("seeds")})
+        J.claim(r, "_Params derives M, N, S from exactly the seeds it was given %r" % (seeds,),
+                asked == sorted(set(seeds)) or asked == sorted(set(seeds) | {b""}), cex=cex, oracle="conform")
         J.claim(r, "exactly one entropy request", len(w["ent"].calls) == 1, cex=cex, oracle="conform")
         if len(w["ent"].calls) != 1:
             continue
-        x, wsc, mlog = reference_message(cls, params, w["pw"], w["ent"].calls[0][1])
+        x, wsc, mlog = reference_message(cls, params, w["pw"], w["ent"].calls[0][1], seeds)
         ref_msg = SymBytes([SIDE_BYTE[cls]]) + g._encode(type(g.Base)(g, mlog))
         J.claim(r, "start() message = side byte || enc(x*G + w*%s)" % {"A": "M", "B": "N", "S": "S"}[cls],
                 w["msg"].eq_term(ref_msg), cex=cex, oracle="conform")
@@ -96,7 +103,7 @@ def job_conform(J, qn, cls, restored, lens):
         if r.value == "key":
             body = w["inbound"][1:]
             peer = g.bytes_to_element(body)                   # contract GC3: decoding is a function of the bytes
-            useed = {"A": b"N", "B": b"M", "S": b"symmetric"}[cls]
+            useed = {"A": seeds[1], "B": seeds[0], "S": seeds[2]}[cls]
             mu_u = z3.Int("dlog_%s_%s" % (g.tag, useed.hex()))
             K = g._encode(type(g.Base)(g, norm((peer.log - wsc * mu_u) * x)))
             H = env.sha_term
@@ -238,6 +245,14 @@ def oracle_constants():
         for k in "MNS":
             if getattr(P, k).to_bytes().hex() != ref[k]:
                 return (True, "%s.%s differs from the released constant" % (nm, k))
+    # custom parameter sets built BEFORE the shipped parameter modules are first imported (fresh interpreter)
+    got = C.fresh_import_order_check()
+    if "error" in got:
+        return (True, "building custom parameter sets before importing the shipped ones failed: %s" % got["error"])
+    for nm, vals in got.items():
+        ref = ed if "Ed25519" in nm else PC.INT_GROUPS[nm.split()[-1]]
+        if vals != [ref["M"], ref["N"], ref["S"]]:
+            return (True, "%s parameter set built/imported after custom parameter sets has M/N/S different from the released constants" % nm)
     # released vectors (scalars from the suite's compat test)
     x = 2611694063369306139794446498317402240796898290761098242657700742213257926693
     y = 7002393159576182977806091886122272758628412261510164356026361256515836884383
